@@ -143,8 +143,11 @@ def agree_ref(ctx, fi, ref_src, title, what=('return', 'heap', 'substores'), rul
                             node=ea.node, construct=ea.text()[:80] + ' [guard]')
     if 'loopstores' in what:
         def sell(II, own):
+            # only loop-carried names (accumulators / running indices): temporaries are compared through the
+            # values that reach stores, calls and returns
             return [e for e in II.events if e.kind == 'store' and e.data.get('target') == 'name' and e.loops
-                    and (own is None or e.func.short == own)]
+                    and (own is None or e.func.short == own)
+                    and any(e.data['name'] in l.get('carried', ()) for l in e.loops)]
         la, lb = sell(I, fi.short), sell(IR, None)
         if len(la) != len(lb):
             ctx.ob(rule, f'{title}: same number of loop-body assignments as the reference', fi, False,
